@@ -29,6 +29,10 @@ CHECKS = {
    technique="complete enumeration of transport operations and argument boundary sets on the real MmioTransport with every MMIO access intercepted (safe-mmio custom backend) and served by a register-level reference device; oracle = constraints from the specification's register table",
    text="Every Transport method of MmioTransport, directly and through SomeTransport, on version 1 and 2 devices, for all queue indices, power-of-two sizes, address triples, feature words, status and interrupt values and device lag, all ordered pairs (thorough: triples) of operations, real initialisation with a real queue, and 56875 probe headers: each access must be a 32-bit access to a register defined for that operation and version in the permitted direction, with queue selection first, correct low/high splitting, QueueReady/QueuePFN last, reset on drop, and the device-side effect must match the arguments.",
    note="Trusts the register-level device model (lab/src/regdev.rs) written from virtio-mmio spec 4.2.2/4.2.4. Reading ConfigGeneration on legacy devices is tolerated."),
+ "C12": dict(level="exploration", design="DESIGN.md §4 C12",
+   technique="complete enumeration of BAR encodings x initial command values, slot assignments, all 4.2M configuration addresses per mechanism, bus populations and capability lists against a reference PCI function model behind ConfigurationAccess (and behind MmioCam through MMIO interception)",
+   text="PciRoot::bar_info/bars, Cam::cam_offset, MmioCam, enumerate_bus and capabilities are run on a reference PCI function model with hard-wired BAR bits and an ordered access log: returned values equal ground truth, command and BAR registers are restored, sizing patterns are only present while decoding is disabled, configuration offsets are distinct, inside the window and equal to the mechanism's encoding, enumeration reports exactly the functions present, capability walks yield each capability once in order.",
+   note="Trusts the PCI function model (lab/src/pci_model.rs) written from PCI 3.0 section 6; reserved command bits modelled read-only zero."),
 }
 
 NOT_YET = "check not built yet in this round (machinery under construction; see DESIGN.md)"
